@@ -64,9 +64,9 @@ Restart(age, rs) == IF age = -1 \/ rs THEN 0 ELSE age        \* a request while 
 Covers(cov, fv2) ==
     /\ \A i \in cov : fv2[i] = fH[i]
     /\ \A i \in Files \ cov : fv2[i] \in {fV[i], fH[i]}
-Restored(fh2) ==
+Restored(cov, fh2) ==
     \A i \in Files : /\ fh2[i] \in {fH[i], "GOOD"}
-                     /\ fH[i] \in {"CORRUPT", "RESTORING"} => fh2[i] = "GOOD"
+                     /\ (i \in cov /\ fH[i] \in {"CORRUPT", "RESTORING"}) => fh2[i] = "GOOD"
 
 \* --- explicit events: the true health they may leave -------------------------
 SwAfter(kind) ==
@@ -143,10 +143,10 @@ FolderScanReq(ok, dn, rs, cov, fv2, fov2) ==
                        /\ fV' = fv2 /\ foV' = fov2 /\ scanAge' = -1
        ELSE /\ fv2 = fV /\ fov2 = foV /\ UNCHANGED <<fV, foV>> /\ scanAge' = Restart(scanAge, rs)
     /\ UNCHANGED <<cfgv, on, swv, fH, restAge, osAge, inTick>>
-FolderRestoreReq(ok, dn, rs, fh2) ==
+FolderRestoreReq(ok, dn, rs, cov, fh2) ==
     /\ ~inTick /\ act' = "FolderRestoreReq"
     /\ IF ~ok THEN UNCHANGED <<fH, restAge>> /\ fh2 = fH
-       ELSE IF dn THEN restDur = 0 /\ Restored(fh2) /\ fH' = fh2 /\ restAge' = -1
+       ELSE IF dn THEN restDur = 0 /\ Restored(cov, fh2) /\ fH' = fh2 /\ restAge' = -1
        ELSE /\ \A i \in Files : fh2[i] \in {fH[i], "RESTORING"}
             /\ fH' = fh2 /\ restAge' = Restart(restAge, rs)
     /\ UNCHANGED <<cfgv, on, swv, fV, foV, scanAge, osAge, inTick>>
@@ -194,9 +194,9 @@ InstallDone ==
     /\ inTick /\ on /\ installing
     /\ swA' = "GOOD" /\ fixAge' = -1 /\ installing' = FALSE /\ act' = "InstallDone"
     /\ UNCHANGED <<cfgv, on, swV, fsv, osAge, inTick>>
-RestoreDone(fh2) ==
+RestoreDone(cov, fh2) ==
     /\ inTick /\ on /\ MayCompleteNow(restAge, restDur)
-    /\ Restored(fh2)
+    /\ Restored(cov, fh2)
     /\ fH' = fh2 /\ restAge' = -1 /\ act' = "RestoreDone"
     /\ UNCHANGED <<cfgv, on, swv, fV, foV, scanAge, osAge, inTick>>
 
